@@ -238,3 +238,243 @@ Proof.
     apply IH; assumption. }
   apply G; [apply a_init_inv|apply a_init_trace].
 Qed.
+
+(* ---- no further delay: the loop never runs past a pending wake-up --------------------------------------
+   [pending_ok]: the wake-up instant of every suspended task (sleeping supervisor or running coroutine)
+   is at or after the loop's current instant.  It holds in every reachable state; hence whenever the loop
+   resumes a task it does so exactly AT that task's wake-up instant (which for a sleeping supervisor is
+   max(reference, due) by [enter_loop_spec]), never later. *)
+Definition pend_ok (a : ajob) (now : Z) : Prop := forall w, wake_of a = Some w -> now <= w.
+Definition pending_ok (s : aio) : Prop := forall id a, In (id, a) (a_jobs s) -> pend_ok a (a_now s).
+
+Lemma lookup_In {A} id (v : A) l : lookup id l = Some v -> In (id, v) l.
+Proof.
+  induction l as [|[k w] t IH]; cbn; [discriminate|].
+  destruct (Nat.eqb k id) eqn:E; intros H.
+  - apply Nat.eqb_eq in E. inversion H; subst. left; reflexivity.
+  - right. apply IH. exact H.
+Qed.
+
+Lemma earliest_min l : forall best id w,
+  earliest l best = Some (id, w) ->
+  (forall bid bw, best = Some (bid, bw) -> w <= bw) /\
+  (forall k a w', In (k, a) l -> wake_of a = Some w' -> w <= w').
+Proof.
+  induction l as [|[k a] r IH]; intros best id w H; cbn [earliest] in H.
+  - subst best. split; [intros bid bw Hb; inversion Hb; lia|intros k a w' Hin; contradiction].
+  - destruct (wake_of a) as [wa|] eqn:Ew.
+    + destruct best as [[bid0 bw0]|].
+      * destruct (wa <? bw0) eqn:Elt.
+        -- apply Z.ltb_lt in Elt. destruct (IH _ _ _ H) as (Hb & Hr).
+           pose proof (Hb k wa eq_refl) as Hwa.
+           split; [intros bid bw Hbb; inversion Hbb; subst; lia|].
+           intros k' a' w' [Heq|Hin] Hw'; [inversion Heq; subst; rewrite Ew in Hw'; inversion Hw'; subst; exact Hwa|exact (Hr k' a' w' Hin Hw')].
+        -- apply Z.ltb_ge in Elt. destruct (IH _ _ _ H) as (Hb & Hr).
+           pose proof (Hb bid0 bw0 eq_refl) as Hbw.
+           split; [intros bid bw Hbb; inversion Hbb; subst; exact Hbw|].
+           intros k' a' w' [Heq|Hin] Hw'; [inversion Heq; subst; rewrite Ew in Hw'; inversion Hw'; subst; lia|exact (Hr k' a' w' Hin Hw')].
+      * destruct (IH _ _ _ H) as (Hb & Hr). pose proof (Hb k wa eq_refl) as Hwa.
+        split; [intros bid bw Hbb; discriminate|].
+        intros k' a' w' [Heq|Hin] Hw'; [inversion Heq; subst; rewrite Ew in Hw'; inversion Hw'; subst; exact Hwa|exact (Hr k' a' w' Hin Hw')].
+    + destruct (IH _ _ _ H) as (Hb & Hr). split; [exact Hb|].
+      intros k' a' w' [Heq|Hin] Hw'; [inversion Heq; subst; congruence|exact (Hr k' a' w' Hin Hw')].
+Qed.
+
+Lemma earliest_none l : forall best,
+  earliest l best = None -> best = None /\ (forall k a w', In (k, a) l -> wake_of a <> Some w').
+Proof.
+  induction l as [|[k a] r IH]; intros best H; cbn [earliest] in H.
+  - split; [exact H|intros k a w' Hin; contradiction].
+  - destruct (wake_of a) as [wa|] eqn:Ew.
+    + exfalso. destruct best as [[bid0 bw0]|].
+      * destruct (wa <? bw0); destruct (IH _ H) as (Hb & _); discriminate.
+      * destruct (IH _ H) as (Hb & _); discriminate.
+    + destruct (IH _ H) as (Hb & Hr). split; [exact Hb|].
+      intros k' a' w' [Heq|Hin]; [inversion Heq; subst; congruence|exact (Hr k' a' w' Hin)].
+Qed.
+
+Lemma in_update_cases {A} x id (v : A) l ax : In (x, ax) (update id v l) -> ax = v \/ In (x, ax) l.
+Proof.
+  induction l as [|[k w] t IH]; cbn [update]; [intros H; contradiction|].
+  destruct (Nat.eqb k id).
+  - intros [Heq|Hin]; [inversion Heq; left; reflexivity|right; right; exact Hin].
+  - intros [Heq|Hin]; [right; left; exact Heq|]. destruct (IH Hin) as [->|H]; [left; reflexivity|right; right; exact H].
+Qed.
+Lemma pending_update s id a' reg evs :
+  pending_ok s -> pend_ok a' (a_now s) -> pending_ok (a_set s reg (update id a' (a_jobs s)) evs).
+Proof.
+  intros Hp Ha x ax Hx. unfold a_set in Hx. cbn [a_jobs] in Hx. unfold a_set; cbn [a_now].
+  apply in_update_cases in Hx. destruct Hx as [->|Hx]; [exact Ha|exact (Hp x ax Hx)].
+Qed.
+
+Lemma enter_loop_pend a j ref a2 live : enter_loop a j ref = (a2, live) -> pend_ok a2 ref.
+Proof.
+  unfold enter_loop, wake_time. destruct (has_attempts j); intros H; inversion H; subst; intros w Hp;
+    unfold wake_of in Hp; cbn [aj_phase] in Hp; [inversion Hp; lia|discriminate].
+Qed.
+Lemma pend_cancelled a now : pend_ok (aj_set_phase a PCancelled) now.
+Proof. intros w H. unfold wake_of in H. cbn [aj_set_phase aj_phase] in H. discriminate. Qed.
+Lemma pend_run a now : pend_ok (aj_set_phase a (PRun (now + dur_of a))) now.
+Proof.
+  intros w H. unfold wake_of in H. cbn [aj_set_phase aj_phase] in H. inversion H. unfold dur_of. lia.
+Qed.
+Lemma pend_kill a now : pend_ok a now -> pend_ok (aj_set_kill a) now.
+Proof. intros Ha w H. apply Ha. unfold wake_of in *. cbn [aj_set_kill aj_phase] in H. exact H. Qed.
+
+Lemma a_cancel_pending s id self :
+  pending_ok s -> pending_ok (a_cancel s id self) /\ a_now (a_cancel s id self) = a_now s.
+Proof.
+  intros Hp. unfold a_cancel. destruct (a_get s id) as [a|] eqn:Hg; [|split; [exact Hp|reflexivity]].
+  pose proof (Hp id a (lookup_In _ _ _ Hg)) as Ha. split; [|reflexivity].
+  apply pending_update; [exact Hp|].
+  destruct (match self with Some x => Nat.eqb x id | None => false end); [apply pend_kill; exact Ha|].
+  destruct (aj_phase a) eqn:Ep; first [apply pend_cancelled|exact Ha].
+Qed.
+
+Lemma cancel_all_pending sel : forall s self,
+  pending_ok s -> pending_ok (fold_left (fun st id => a_cancel st id self) sel s) /\
+                  a_now (fold_left (fun st id => a_cancel st id self) sel s) = a_now s.
+Proof.
+  induction sel as [|x r IH]; intros s self H; cbn [fold_left]; [split; [exact H|reflexivity]|].
+  destruct (a_cancel_pending s x self H) as (H1 & N1).
+  destruct (IH _ self H1) as (H2 & N2). split; [exact H2|congruence].
+Qed.
+
+Lemma a_op_pending s o self s' r : pending_ok s -> a_op s o self = (s', r) -> pending_ok s' /\ a_now s' = a_now s.
+Proof.
+  intros Hp H. destruct o as [id|tags any|tags any|]; cbn [a_op] in H.
+  - destruct (nmem id (a_reg s)); inversion H; subst; [apply a_cancel_pending; exact Hp|split; [exact Hp|reflexivity]].
+  - inversion H; subst. apply cancel_all_pending. exact Hp.
+  - inversion H; subst. split; [exact Hp|reflexivity].
+  - inversion H; subst. split; [exact Hp|reflexivity].
+Qed.
+
+Lemma a_prog_pending p : forall s self s' b,
+  pending_ok s -> a_prog s p self = (s', b) -> pending_ok s' /\ a_now s' = a_now s.
+Proof.
+  induction p as [|o r IH]; intros s self s' b Hp H; cbn [a_prog] in H; [inversion H; subst; split; [exact Hp|reflexivity]|].
+  destruct (a_op s o (Some self)) as [s1 r1] eqn:E.
+  destruct (a_op_pending _ _ _ _ _ Hp E) as (H1 & N1).
+  destruct r1 as [v|e].
+  - destruct (IH _ _ _ _ H1 H) as (H2 & N2). split; [exact H2|congruence].
+  - inversion H; subst. split; assumption.
+Qed.
+
+Lemma a_schedule_pending s c durs pre post sync s' r :
+  pending_ok s -> a_schedule s c durs pre post sync = (s', r) -> pending_ok s' /\ a_now s' = a_now s.
+Proof.
+  intros Hp H. unfold a_schedule in H.
+  destruct (job_create c (a_tz s) (a_now s)) as [j|e].
+  - destruct (enter_loop (mkAjob j PDone (a_now s) durs pre post false sync) j (a_now s)) as [a live] eqn:Eel.
+    inversion H; subst; clear H. split; [|reflexivity].
+    intros x ax Hx. cbn [a_jobs] in Hx. cbn [a_now].
+    apply in_app_or in Hx. destruct Hx as [Hx|[Heq|[]]]; [exact (Hp x ax Hx)|inversion Heq; subst; exact (enter_loop_pend _ _ _ _ _ Eel)].
+  - inversion H; subst. split; [|reflexivity]. intros x ax Hx. exact (Hp x ax Hx).
+Qed.
+
+Lemma pending_events s evs : pending_ok s -> pending_ok (a_set s (a_reg s) (a_jobs s) evs).
+Proof. intros Hp x ax Hx. exact (Hp x ax Hx). Qed.
+
+Lemma a_resume_pending s id : pending_ok s -> pending_ok (a_resume s id) /\ a_now (a_resume s id) = a_now s.
+Proof.
+  intros Hp. unfold a_resume. destruct (a_get s id) as [a|] eqn:Hg; [|split; [exact Hp|reflexivity]].
+  destruct (aj_phase a) eqn:Ep; try (split; [exact Hp|reflexivity]).
+  - destruct (nth (Z.to_nat (j_attempts (aj_job a))) (aj_sync a) false).
+    + destruct (job_calc (job_run (aj_job a) true) (dt_now (a_now s) (a_tz s))) as [j2|e]; [|split; [exact Hp|reflexivity]].
+      destruct (enter_loop a j2 (a_now s)) as [a2 live] eqn:Eel.
+      split; [|reflexivity]. apply pending_update; [exact Hp|exact (enter_loop_pend _ _ _ _ _ Eel)].
+    + set (s0 := a_set s (a_reg s) (a_jobs s) _).
+      assert (Hp0 : pending_ok s0) by (apply pending_events; exact Hp).
+      destruct (a_prog s0 (aj_pre a) id) as [s1 praised] eqn:Ep1.
+      destruct (a_prog_pending _ _ _ _ _ Hp0 Ep1) as (Hp1 & N1).
+      assert (N : a_now s1 = a_now s) by (rewrite N1; reflexivity).
+      destruct (a_get s1 id) as [a1|] eqn:Hg1; [|split; assumption].
+      destruct praised.
+      * destruct (job_calc (job_run (aj_job a1) true) (dt_now (a_now s) (a_tz s))) as [j2|e]; [|split; assumption].
+        destruct (enter_loop a1 j2 (a_now s)) as [a2 live] eqn:Eel.
+        pose proof (enter_loop_pend _ _ _ _ _ Eel) as Ha2. rewrite <- N in Ha2.
+        split; [|exact N]. apply pending_update; [exact Hp1|].
+        destruct (aj_kill a1); [destruct live; [apply pend_cancelled|exact Ha2]|exact Ha2].
+      * destruct (aj_kill a1).
+        -- split; [|exact N]. apply pending_update; [exact Hp1|apply pend_cancelled].
+        -- split; [|exact N]. apply pending_update; [exact Hp1|]. rewrite N. apply pend_run.
+  - set (s0 := a_set s (a_reg s) (a_jobs s) _).
+    assert (Hp0 : pending_ok s0) by (apply pending_events; exact Hp).
+    destruct (a_prog s0 (aj_post a) id) as [s1 praised] eqn:Ep1.
+    destruct (a_prog_pending _ _ _ _ _ Hp0 Ep1) as (Hp1 & N1).
+    assert (N : a_now s1 = a_now s) by (rewrite N1; reflexivity).
+    destruct (a_get s1 id) as [a1|] eqn:Hg1; [|split; assumption].
+    cbv zeta.
+    destruct (job_calc (job_run (aj_job a1) (praised || outcome_of (aj_job a1))) (dt_now (a_now s) (a_tz s))) as [j2|e]; [|split; assumption].
+    destruct (enter_loop a1 j2 (a_now s)) as [a2 live] eqn:Eel.
+    pose proof (enter_loop_pend _ _ _ _ _ Eel) as Ha2. rewrite <- N in Ha2.
+    split; [|exact N]. apply pending_update; [exact Hp1|].
+    destruct (aj_kill a1); [destruct live; [apply pend_cancelled|exact Ha2]|exact Ha2].
+Qed.
+
+(* the loop resumes a task exactly at its wake-up instant *)
+Theorem resume_at_wake s id w :
+  pending_ok s -> earliest (a_jobs s) None = Some (id, w) -> Z.max (a_now s) w = w.
+Proof.
+  intros Hp He. destruct (earliest_active _ _ _ _ He) as [Hb|(a & Hin & Hw)]; [discriminate|].
+  pose proof (Hp id a Hin w Hw). lia.
+Qed.
+
+Lemma pending_now s t :
+  (forall k a w', In (k, a) (a_jobs s) -> wake_of a = Some w' -> t <= w') ->
+  pending_ok (mkAio (a_tz s) t (a_reg s) (a_jobs s) (a_next s) (a_events s)).
+Proof. intros H k a Hin w Hw. cbn [a_jobs a_now] in *. exact (H k a w Hin Hw). Qed.
+
+Lemma a_run_pending fuel : forall s t s' ok, pending_ok s -> a_run fuel s t = (s', ok) -> pending_ok s'.
+Proof.
+  induction fuel as [|f IH]; intros s t s' ok Hp H; cbn [a_run] in H; [inversion H; subst; exact Hp|].
+  destruct (earliest (a_jobs s) None) as [[id w]|] eqn:Ee.
+  - destruct (earliest_min _ _ _ _ Ee) as (_ & Hmin).
+    destruct (w <=? t) eqn:Ewt.
+    + set (s1 := mkAio (a_tz s) (Z.max (a_now s) w) (a_reg s) (a_jobs s) (a_next s) (a_events s)) in *.
+      assert (Hp1 : pending_ok s1).
+      { apply pending_now. intros k a w' Hin Hw'. pose proof (Hp k a Hin w' Hw'). pose proof (Hmin k a w' Hin Hw'). lia. }
+      destruct (a_resume_pending s1 id Hp1) as (Hp2 & _).
+      apply (IH _ _ _ _ Hp2 H).
+    + apply Z.leb_gt in Ewt. inversion H; subst. apply pending_now.
+      intros k a w' Hin Hw'. pose proof (Hp k a Hin w' Hw'). pose proof (Hmin k a w' Hin Hw'). lia.
+  - destruct (earliest_none _ _ Ee) as (_ & Hnone). inversion H; subst. apply pending_now.
+    intros k a w' Hin Hw'. exfalso. exact (Hnone k a w' Hin Hw').
+Qed.
+
+Lemma a_init_pending tz now : pending_ok (a_init tz now).
+Proof. intros k a Hin. contradiction. Qed.
+
+Theorem a_step_pending s o s' r : pending_ok s -> a_step s o = (s', r) -> pending_ok s'.
+Proof.
+  intros Hp H. unfold a_step in H.
+  assert (Hp0 : pending_ok (a_clear s)) by (intros k a Hin; exact (Hp k a Hin)).
+  set (s0 := a_clear s) in *.
+  assert (Hsettle : forall s1 r1, pending_ok s1 -> settle (s1, r1) = (s', r) -> pending_ok s').
+  { intros s1 r1 H1 Hs. unfold settle in Hs. cbn [fst snd] in Hs.
+    destruct (a_run RUN_FUEL s1 (a_now s1)) as [s2 ok] eqn:Er. inversion Hs; subst.
+    apply (a_run_pending _ _ _ _ _ H1 Er). }
+  destruct o as [c durs pre post sync|ot c durs pre post sync|o|t].
+  - destruct (a_schedule s0 c durs pre post sync) as [s1 r1] eqn:E.
+    destruct (a_schedule_pending _ _ _ _ _ _ _ _ Hp0 E) as (H1 & _). apply (Hsettle s1 r1 H1 H).
+  - destruct (a_schedule s0 (once_cfg ot c) durs pre post sync) as [s1 r1] eqn:E.
+    destruct (a_schedule_pending _ _ _ _ _ _ _ _ Hp0 E) as (H1 & _). apply (Hsettle s1 r1 H1 H).
+  - destruct (a_op s0 o None) as [s1 r1] eqn:E.
+    destruct (a_op_pending _ _ _ _ _ Hp0 E) as (H1 & _). apply (Hsettle s1 r1 H1 H).
+  - destruct (a_run RUN_FUEL s0 t) as [s1 ok] eqn:Er. inversion H; subst.
+    apply (a_run_pending _ _ _ _ _ Hp0 Er).
+Qed.
+
+(* every history (valid or not): no suspended task is ever overdue for resumption, so each resumption
+   happens exactly at the task's wake-up instant *)
+Theorem history_no_delay tz now ops :
+  let s := a_steps (a_init tz now) ops in
+  pending_ok s /\ (forall id w, earliest (a_jobs s) None = Some (id, w) -> Z.max (a_now s) w = w).
+Proof.
+  cbv zeta.
+  assert (G : forall s, pending_ok s -> pending_ok (a_steps s ops)).
+  { induction ops as [|o r IH]; intros s Hp; cbn [a_steps]; [exact Hp|].
+    destruct (a_step s o) as [s1 r1] eqn:E. cbn [fst]. apply IH. apply (a_step_pending _ _ _ _ Hp E). }
+  pose proof (G _ (a_init_pending tz now)) as Hp. split; [exact Hp|].
+  intros id w He. apply (resume_at_wake _ _ _ Hp He).
+Qed.
